@@ -13,8 +13,8 @@ use crate::wb::{Entry, Op, Outcome, SheetArg};
 
 pub const ID: &str = "C07";
 
-pub fn total_runs(ctx: &Ctx) -> u64 {
-    let n = ctx.corpus.len() as u64;
+pub fn total_runs(ctx: &mut Ctx) -> u64 {
+    let n = ctx.rotation().len() as u64;
     match ctx.tier {
         Tier::Quick => n * 150,
         Tier::Thorough => n * 3000,
@@ -108,8 +108,8 @@ pub fn gen_op(ch: &mut Chooser, format: Format, names: &[String], n_tables: usiz
 
 pub fn gen(ctx: &mut Ctx, idx: u64) -> (RunSpec, Cfg) {
     let seed = h3(ctx.seed, tag(ID), idx);
-    let nfiles = ctx.corpus.len() as u64;
-    let fx = ctx.corpus[(idx % nfiles) as usize].clone();
+    let rot = ctx.rotation();
+    let fx = ctx.corpus[rot[(idx % rot.len() as u64) as usize]].clone();
     let mut ch = Chooser::new(seed, "c07");
     let m = ctx.models.get(&fx);
     let entry = if ch.chance(1, 3) { Entry::Auto } else { Entry::own(fx.format) };
@@ -537,8 +537,8 @@ pub fn final_spec(ctx: &mut Ctx, idx: u64) -> RunSpec {
     let seed = h3(ctx.seed, tag(ID), idx);
     let mut ch = Chooser::new(seed, "c07-faults");
     let n = ch.range(1, 3) as usize;
-    let first_set = spec.ops.iter().position(|o| matches!(o, Op::LoadTables | Op::LoadMerged | Op::SetHeader(_))).map(|p| p + 1);
-    spec.delivery.faults = place_faults(&mut ch, &dry.op_events, n, first_set);
+    let prefer = preferred_calls(&spec.ops);
+    spec.delivery.faults = place_faults(&mut ch, &dry.op_events, n, &prefer);
     spec
 }
 
